@@ -926,12 +926,19 @@ def flat_text(kind, n, indent=''):
     return text
 
 
-def flat_cases(sizes, kinds=FLAT_KINDS):
+def flat_cases(sizes, kinds=FLAT_KINDS, placements=('module', 'function', 'loop', 'class', 'imported'), elif_n=150):
     """long FLAT programs: lint + cursor requests at the end, in the middle and at the start; at module level, inside
     a function body, inside a loop body, inside a class body, and as a module imported by the edited file"""
     out = []
-    for n in sizes:
+    for n0 in sizes:
         for kind in kinds:
+            n = n0
+            if kind == 'elif-chain':
+                # an elif chain NESTS (each elif is the orelse of the previous if): keep it below the depth at which
+                # a RecursionError counts as nesting beyond the recursion limit
+                if n0 > 500:
+                    continue
+                n = elif_n if n0 <= 200 else 60
             body = flat_text(kind, n)
             # module level
             text = body + 'v\nv.zz\n'
@@ -941,23 +948,27 @@ def flat_cases(sizes, kinds=FLAT_KINDS):
             while mid > 3 and (not L.lines[mid - 1].strip() or L.lines[mid - 1].startswith((' ', 'el', 'ex', 'fi'))):
                 mid -= 1
             pos = [(last - 1, 1), (last, 2), (last, 4), (mid, 0), (mid, len(L.lines[mid - 1])), (3, len(L.lines[2])), (1, 1)]
-            out.append(_case('flat:module:%s:%d' % (kind, n), text, positions=pos))
-            if n <= 1000:
+            if 'module' in placements:
+                out.append(_case('flat:module:%s:%d' % (kind, n), text, positions=pos))
+            if True:
                 for where, head, tail in (('function', 'def g(c, r, E):\n', '    return v\ng().zz\n'),
                                           ('loop', 'for k in r:\n', 'v.zz\n'),
                                           ('class', 'class K:\n', 'K.v.zz\nK().w\n')):
+                    if where not in placements:
+                        continue
                     t2 = head + flat_text(kind, n, '    ') + tail
                     L2 = Lines(t2)
                     rows = len(L2) - 1
                     pos2 = [(rows, len(L2.lines[rows - 1]) - 2), (rows, len(L2.lines[rows - 1])), (rows - 1, len(L2.lines[rows - 2])),
                             (rows // 2, len(L2.lines[rows // 2 - 1]))]
                     out.append(_case('flat:%s:%s:%d' % (where, kind, n), t2, positions=pos2))
-                out.append(_case('flat:imported:%s:%d' % (kind, n), 'import big\nbig.v\nbig.v.zz\nfrom big import v, w\nv.zz\nfrom big import *\nw\n',
-                                 files={'big.py': body}))
+                if 'imported' in placements:
+                    out.append(_case('flat:imported:%s:%d' % (kind, n), 'import big\nbig.v\nbig.v.zz\nfrom big import v, w\nv.zz\nfrom big import *\nw\n',
+                                     files={'big.py': body}))
     return out
 
 
-def char_cases():
+def char_cases(big=False):
     """lone surrogates, control characters, very long lines and identifiers, brackets nested up to below the parser's limit"""
     out = []
     for cp in (0xd800, 0xdc80, 0xdfff):
@@ -976,7 +987,7 @@ def char_cases():
         out.append(_case('chars:control-in-triple-string:%04x' % cp, 'x = """a\n%s\nb"""\nx.zz\n' % ch))
     out.append(_case('chars:nul-in-string', 'x = "a\x00b"\nx\n'))
     out.append(_case('chars:nul-in-comment', 'x = 1 # \x00\nx\n'))
-    for n in (1000, 20000, 200000):
+    for n in (1000, 20000, 200000) if big else (1000, 20000):
         ends = lambda t: [(len(Lines(t)) - 1, 0), (len(Lines(t)) - 1, 1), (len(Lines(t)) - 1, 2), (1, 3),
                           (1, min(n // 2, len(Lines(t).lines[0]) - 1)), (1, 1)]
         t = 'x = [' + ', '.join('a%d' % i for i in range(n // 6)) + ']\nx.zz\n'
@@ -991,7 +1002,7 @@ def char_cases():
         out.append(_case('chars:long-line-call:%d' % n, t, positions=ends(t)))
         t = 'x = "' + 'é' * (n // 2) + '"; y = x\ny.zz\n'
         out.append(_case('chars:long-line-non-ascii:%d' % n, t, positions=ends(t) + [(1, n // 2 + 12), (1, n // 2 + 13)]))
-    for n in (100, 1000, 5000, 50000):
+    for n in (100, 1000, 5000, 50000) if big else (100, 1000, 5000):
         ident = 'i' * n
         t = '%s = 1\n%s\n%s.zz\nclass %sC:\n    %s = 2\n%sC.%s\n' % (ident, ident, ident, ident, ident, ident, ident)
         out.append(_case('chars:long-identifier:%d' % n, t,
@@ -1019,11 +1030,42 @@ def char_cases():
     return res
 
 
+def growth_cases(sizes, budget_probes):
+    """short runs of sequential compound statements (sizes 4..16) in every placement: cheap when the analysis is
+    polynomial, over the step budget when it doubles with every statement; budget_probes = [(placement, kind, n)] are
+    the sizes at which a doubling analysis needs more than 8*B line events"""
+    out = []
+    kinds = ('if', 'if-else', 'for', 'for-distinct', 'while', 'try', 'try-finally', 'with', 'def', 'class', 'comprehension', 'mixed',
+             'lambda', 'augassign')
+
+    def build(where, kind, n):
+        body = flat_text(kind, n, '' if where == 'module' else '    ')
+        text = {'module': body + 'v\nv.zz\n',
+                'function': 'def g(c, r, E):\n' + body + '    return v\ng().zz\n',
+                'loop': 'for k in r:\n' + body + 'v\nv.zz\n',
+                'while-loop': 'while c:\n' + body + 'v\nv.zz\n',
+                'class': 'class K:\n' + body + 'K.v.zz\n',
+                'method': 'class K:\n    def m(self, c, r, E):\n' + flat_text(kind, n, '        ') + '        self.a = v\n'
+                          '        return v\nK().m().zz\nK().a.zz\n'}[where]
+        L = Lines(text)
+        rows = len(L) - 1
+        pos = [(rows, len(L.lines[rows - 1]) - 2), (rows, len(L.lines[rows - 1])), (rows - 1, len(L.lines[rows - 2])),
+               (max(1, rows // 2), len(L.lines[max(1, rows // 2) - 1]))]
+        return _case('growth:%s:%s:%d' % (where, kind, n), text, positions=pos)
+    for n in sizes:
+        for where in ('module', 'function', 'loop', 'while-loop', 'class', 'method'):
+            for kind in kinds:
+                out.append(build(where, kind, n))
+    for where, kind, n in budget_probes:
+        out.append(build(where, kind, n))
+    return out
+
+
 _FAMILY_CACHE = {}
 
 
 def family(name, tier='quick'):
-    key = (name, tier if name == 'flat' else '')
+    key = (name, tier if name in ('flat', 'chars', 'growth') else '')
     if key not in _FAMILY_CACHE:
         _FAMILY_CACHE[key] = _family(name, tier)
     return _FAMILY_CACHE[key]
@@ -1037,13 +1079,27 @@ def _family(name, tier='quick'):
     if name == 'del':
         return del_cases()
     if name == 'chars':
-        return char_cases()
-    if name == 'flat':
+        return char_cases(big=tier != 'quick')
+    if name == 'growth':
         if tier == 'quick':
-            return (flat_cases((200,)) + flat_cases((500,), ('if', 'for', 'try', 'def', 'elif-chain', 'assign', 'mixed')) +
-                    flat_cases((1000,), ('if', 'assign')) + flat_cases((3000,), ('assign', 'if')))
-        return flat_cases((200, 500, 1000)) + flat_cases((3000,), ('assign', 'expr', 'if', 'for', 'try', 'def', 'elif-chain', 'with',
-                                                                    'import', 'mixed'))
+            # the probes that need the whole 9*B line events (minutes of CPU each) run in the thorough tier only
+            return growth_cases((4, 8), [])
+        return growth_cases((4, 8, 12), [(w, k, n) for w in ('module', 'function', 'loop', 'class') for k, n in
+                                         (('for', 19), ('while', 26), ('if', 26), ('try', 26), ('mixed', 26), ('comprehension', 26))])
+    if name == 'flat':
+        # lint is super-linear in the number of sequential regions that rebind one name (1000 if-blocks: ~10 s,
+        # 3000: minutes), so the big sizes are run for the kinds that stay cheap
+        linear = ('assign', 'expr', 'def', 'class', 'import', 'augassign', 'lambda', 'with', 'try-finally', 'mixed', 'elif-chain')
+        mid = ('if', 'if-distinct', 'for-distinct', 'try-distinct', 'while', 'if-else', 'for', 'try', 'comprehension')
+        out = flat_cases((200,), elif_n=60 if tier == 'quick' else 150)
+        if tier == 'quick':
+            out += flat_cases((500,), linear + ('if-distinct',), placements=('module', 'imported'))
+            out += flat_cases((1000, 3000), linear, placements=('module',))
+        else:
+            out += flat_cases((500,))
+            out += flat_cases((1000,), linear + mid[:5], placements=('module', 'function', 'imported'))
+            out += flat_cases((3000,), linear + ('if-distinct',), placements=('module', 'imported'))
+        return out
     raise KeyError(name)
 
 
